@@ -339,6 +339,7 @@ func getSuggestedFieldNames(schema *Schema, ttype Output, fieldName string) []st
 	for possibleFieldName := range fields {
 		possibleFieldNames = append(possibleFieldNames, possibleFieldName)
 	}
+	sort.Strings(possibleFieldNames)
 	return suggestionList(fieldName, possibleFieldNames)
 }
 
@@ -1829,6 +1830,9 @@ func (s suggestionListResult) Swap(i, j int) {
 	s.Distances[i], s.Distances[j] = s.Distances[j], s.Distances[i]
 }
 func (s suggestionListResult) Less(i, j int) bool {
+	if s.Distances[i] == s.Distances[j] {
+		return s.Options[i] < s.Options[j]
+	}
 	return s.Distances[i] < s.Distances[j]
 }
 
